@@ -119,6 +119,12 @@ func (fc *fctx) externalCall(callee *ssa.Function, args []*Val, cc *ssa.CallComm
 		tr.reflectOf[v.E()] = args[0]
 		tr.trusted["reflect.ValueOf/Kind: the kind is an uninterpreted function of the interface value"] = true
 		return []*Val{v}
+	case "(reflect.Value).IsNil":
+		if src, ok := tr.reflectOf[args[0].E()]; ok {
+			// for a pointer kind: the pointer held by the interface is nil
+			return []*Val{boolVal(eq(ifPart(src, 1), "0"))}
+		}
+		return fc.freshResults(callee.Signature.Results(), "isnil")
 	case "(reflect.Value).Kind":
 		tr.u.decl("specfn:reflect_kind_of", "(declare-fun reflect_kind_of (Iface) Int)")
 		if src, ok := tr.reflectOf[args[0].E()]; ok {
